@@ -112,10 +112,11 @@ pub fn alphabet() -> Vec<Op> {
     for f in 0..3 {
         a.push(Op::Frame(f));
     }
-    for (s, g) in [(5.0, 1.0), (0.0, 0.0), (7.5, 0.25)] {
+    // (9.1, 0.3) and [12.3, 7.7]: values that are not exactly representable in single precision
+    for (s, g) in [(5.0, 1.0), (0.0, 0.0), (7.5, 0.25), (9.1, 0.3)] {
         a.push(Op::ImageSize(s, g));
     }
-    for p in [vec![], vec![3.0], vec![3.0, 4.0], vec![1.0, 2.0, 3.0]] {
+    for p in [vec![], vec![3.0], vec![3.0, 4.0], vec![1.0, 2.0, 3.0], vec![12.3, 7.7]] {
         a.push(Op::ImagePosition(p));
     }
     for s in COLOUR_STRINGS {
@@ -405,7 +406,7 @@ pub fn replay(case: &Value) -> Result<Vec<(String, String)>, String> {
 
 pub fn run(ctx: &Ctx) -> Collector {
     let col = Collector::new("C17", "model_checking");
-    col.set_rule("E2: breadth-first search over SvgOptions setter programs to depth D (quick 3, thorough 4) from SvgOptions::new(), 78-operation alphabet {shape x6, margin x3, ecl x4, version x3, image x4, image_background_shape x3, image_size x3, image_position x4 (lengths 0,1,2,3), three colour setters x 16 strings (4 well-formed, 12 malformed)}; states de-duplicated on the implementation's own Debug string; EVERY (state, operation) transition is executed on the real object (setters may panic); in every distinct state qr_svg is compared with the native SvgBuilder configured from the abstract model for 5 small contents (empty, digits, alphanumeric, bytes, multi-byte UTF-8), and in all states of depth <= 1 also for the level-Q capacity edges +-1 of the three modes and an 8000-character content; qr() compared with the native default build on those contents and every length around the capacity edges; depth 1: all 3905 strings of length <= 5 over {# 0 f g e-acute} through each colour setter; oracle: no call panics; well-formed colour strings (#?RRGGBB[AA]) take effect, malformed ones are ignored or leave a valid colour; outputs byte-identical to native; non-trivial = a document or matrix was returned; distinct = distinct returned strings/arrays");
+    col.set_rule("E2: breadth-first search over SvgOptions setter programs to depth D (quick 3, thorough 4) from SvgOptions::new(), 80-operation alphabet {shape x6, margin x3, ecl x4, version x3, image x4, image_background_shape x3, image_size x4, image_position x5 (lengths 0,1,2,3), three colour setters x 16 strings (4 well-formed, 12 malformed)}; states de-duplicated on the implementation's own Debug string; EVERY (state, operation) transition is executed on the real object (setters may panic); in every distinct state qr_svg is compared with the native SvgBuilder configured from the abstract model for 5 small contents (empty, digits, alphanumeric, bytes, multi-byte UTF-8), and in all states of depth <= 1 also for the level-Q capacity edges +-1 of the three modes and an 8000-character content; qr() compared with the native default build on those contents and every length around the capacity edges; depth 1: all 3905 strings of length <= 5 over {# 0 f g e-acute} through each colour setter; oracle: no call panics; well-formed colour strings (#?RRGGBB[AA]) take effect, malformed ones are ignored or leave a valid colour; outputs byte-identical to native; non-trivial = a document or matrix was returned; distinct = distinct returned strings/arrays");
     col.assume("hook H4 compiles src/wasm.rs unchanged for the host (64-bit usize); the real wasm32 target is not executed");
     col.assume("colours held by the option object are observed black-box by rendering a probe document; the Debug string is used only as an opaque de-duplication key");
     let thorough = ctx.tier.thorough();
@@ -424,6 +425,7 @@ pub fn run(ctx: &Ctx) -> Collector {
     // real state (Debug string) -> the model of the first program that reached it
     let seen: Mutex<HashMap<String, Model>> = Mutex::new(HashMap::new());
     seen.lock().unwrap().insert(format!("{:?}", root), Model::default());
+    let seen_pairs: Mutex<std::collections::HashSet<String>> = Mutex::new(std::collections::HashSet::new());
     let conflations = AtomicU64::new(0);
     let transitions = AtomicU64::new(0);
     let svg_calls = AtomicU64::new(0);
@@ -463,6 +465,14 @@ pub fn run(ctx: &Ctx) -> Collector {
                     col.violation((d as u64, (i * 100 + oi) as u64), format!("C17/{}", k), w, case_json(&p2, None));
                 }
                 if let Some(n) = n {
+                    // a state of the search is the pair (implementation state, model state): if the implementation
+                    // merges two option histories that the model tells apart, both stay in the frontier (a later
+                    // call may make the difference visible: geometry cleared by image("") shows when an image is
+                    // set again)
+                    let pair_key = format!("{:?}|{:?}", n, m);
+                    if !seen_pairs.lock().unwrap().insert(pair_key) {
+                        continue;
+                    }
                     let key = format!("{:?}", n);
                     let first = {
                         let mut g = seen.lock().unwrap();
@@ -481,6 +491,7 @@ pub fn run(ctx: &Ctx) -> Collector {
                         // distinguishes: the export is judged against THIS program's model too, wherever the two
                         // models render differently (de-duplication must not hide a path-dependent divergence)
                         Some(first) if first != m => {
+                            next.lock().unwrap().push((n.clone(), m.clone(), p2.clone()));
                             for c in SMALL_CONTENTS {
                                 if first.native_svg(c) != m.native_svg(c) {
                                     conflations.fetch_add(1, Ordering::Relaxed);
